@@ -28,22 +28,31 @@ def parsePath (s : String) : Path := if s == "." then [] else s.splitOn "/"
 def octal (n : Nat) : String := String.ofList (Nat.toDigits 8 n)
 def parseOct (s : String) : Nat := s.toList.foldl (fun a c => a * 8 + (c.toNat - 48)) 0
 
+def u32 (s : String) : Nat := ((s.toInt?.getD 0) % 4294967296).toNat
+
 def parseNode (s : String) : Option (Path × Node) :=
   match s.splitOn "," with
-  | ["d", p, m, t] => some (parsePath p, { kind := .dir, mode := parseOct m, mtime := t.toNat? })
-  | ["f", p, m, t, h] => some (parsePath p, { kind := .file, mode := parseOct m, mtime := t.toNat?, data := unhexBytes h })
-  | ["l", p, tg, t] => some (parsePath p, { kind := .link, mode := 0o777, mtime := t.toNat?, target := (unhexStr tg).splitOn "/" })
+  | ["d", p, m, t] => some (parsePath p, { kind := .dir, mode := parseOct m, mtime := t.toInt? })
+  | ["f", p, m, t, h] => some (parsePath p, { kind := .file, mode := parseOct m, mtime := t.toInt?, data := unhexBytes h })
+  | ["l", p, tg, t] => some (parsePath p, { kind := .link, mode := 0o777, mtime := t.toInt?, target := (unhexStr tg).splitOn "/" })
   | _ => none
 
 def parseEntry (s : String) : Option Entry :=
   match s.splitOn "," with
-  | ["D", n, m, t] => some { name := (unhexStr n).splitOn "/", typ := .dir, mode := parseOct m, mtime := t.toNat?.getD 0 }
-  | ["F", n, m, t, h] => some { name := (unhexStr n).splitOn "/", typ := .reg, mode := parseOct m, mtime := t.toNat?.getD 0, data := unhexBytes h }
-  | ["L", n, l, m, t] => some { name := (unhexStr n).splitOn "/", typ := .symlink, linkname := (unhexStr l).splitOn "/", mode := parseOct m, mtime := t.toNat?.getD 0 }
+  | ["D", n, m, t] => some { name := (unhexStr n).splitOn "/", typ := .dir, mode := parseOct m, mtime := t.toInt?.getD 0 }
+  | ["F", n, m, t, h] => some { name := (unhexStr n).splitOn "/", typ := .reg, mode := parseOct m, mtime := t.toInt?.getD 0, data := unhexBytes h }
+  | ["L", n, l, m, t] => some { name := (unhexStr n).splitOn "/", typ := .symlink, linkname := (unhexStr l).splitOn "/", mode := parseOct m, mtime := t.toInt?.getD 0 }
   | ["X", n] => some { name := (unhexStr n).splitOn "/", typ := .other }
+  -- entries of `extractraw`: what archive/tar's Reader returned for a hand-made stream; `header.Mode` is a
+  -- signed decimal int64 and reaches the model as `uint32(mode)` like in the Go code
+  | ["d", n, m, t] => some { name := (unhexStr n).splitOn "/", typ := .dir, mode := u32 m, mtime := t.toInt?.getD 0 }
+  | ["f", n, m, t, h] => some { name := (unhexStr n).splitOn "/", typ := .reg, mode := u32 m, mtime := t.toInt?.getD 0, data := unhexBytes h }
+  | ["l", n, l, m, t] => some { name := (unhexStr n).splitOn "/", typ := .symlink, linkname := (unhexStr l).splitOn "/", mode := u32 m, mtime := t.toInt?.getD 0 }
+  | ["x", n] => some { name := (unhexStr n).splitOn "/", typ := .other }
+  | ["e"] => some { name := [], typ := .bad }
   | _ => none
 
-def showTime (t : Option Nat) : String := match t with | some t => toString t | none => "now"
+def showTime (t : Option Int) : String := match t with | some t => toString t | none => "now"
 
 def showNode (p : Path) (n : Node) : String :=
   let ps := if p.isEmpty then "." else "/".intercalate p
@@ -70,6 +79,10 @@ def step (s : DSt) (line : String) : DSt × String :=
       | some (p, n) => AMap.insert w p n
       | none => w) ([] : World)
     ({ s with w := w }, "ok")
+  | "extractraw" :: target :: _raw :: es =>
+    let entries := es.filterMap parseEntry
+    let r := extract (!s.unfixed) ".c38-tmp" s.w (parsePath target) entries
+    ({ s with w := r.1 }, s!"{if r.2 then "err" else "ok"} {showWorld r.1}")
   | "extract" :: target :: es =>
     let entries := es.filterMap parseEntry
     let r := extract (!s.unfixed) ".c38-tmp" s.w (parsePath target) entries
